@@ -424,7 +424,9 @@ def run_parent(ch, solvers, op, plan, run_worker, cache, parent=None, abandon_af
     res["gets"] = world.gets
     res["delivery_order"] = list(world.delivery_order)
     res["delivered"] = list(world.delivered)
-    res["undelivered"] = [m for q in world.queues for m in q.undelivered()]
+    # messages of THIS call's workers; what an earlier call left in a queue owned by the parent object is that
+    # implementation's business (it may tag calls and skip it) and is judged through the results only
+    res["undelivered"] = [m for q in world.queues for m in q.undelivered() if m.w < mpsim.STALE_BASE]
     res["procs"] = world.procs
     res["streams"] = [p.stream for p in world.procs if p.stream is not None]
     res["fired"] = dict(world.fired)
